@@ -1,13 +1,14 @@
 // C06 — a valid request is executed exactly once and answered faithfully (rapidcheck sessions).
 #include "support/rc.hpp"
+#include <memory>
 #include "props/regp.hpp"
 using namespace rx;
 
 struct Spec { int kind; bool write, w16; uint16_t seq; uint32_t addr, n; Bytes payload; int code; uint32_t vaddr; int meta; int optx = -1; int dmg = 0; };   // kind 0 request 1 response 2 meta; dmg != 0: the frame is damaged on the way (see damaged()); optx >= 0: checksum option bits to use instead of the transport's canonical ones
-struct Case { bool serial, mem16, chunk_src, chunk_snk; uint32_t extra; std::vector<Spec> frames; };   // extra == 0: the receive block is exactly as large as the largest frame/answer needs
+struct Case { bool serial, mem16, chunk_src, chunk_snk; uint32_t extra; std::vector<Spec> frames; bool nest = false; };   // nest: while a response is being handed to the sink, the sink's driver makes a second protocol instance emit an error response of its own   // extra == 0: the receive block is exactly as large as the largest frame/answer needs
 
 static std::string ser_case(const Case &c) {
-    std::string s = vp::fmt("session %d %d %d %d %u\n", (int)c.serial, (int)c.mem16, (int)c.chunk_src, (int)c.chunk_snk, c.extra);
+    std::string s = vp::fmt("session %d %d %d %d %u %d\n", (int)c.serial, (int)c.mem16, (int)c.chunk_src, (int)c.chunk_snk, c.extra, (int)c.nest);
     for (auto &f : c.frames) s += vp::fmt("frame %d %d %d %u %u %u %d %u %d %s %d %d\n", f.kind, (int)f.write, (int)f.w16, f.seq, f.addr, f.n, f.code, f.vaddr, f.meta, f.payload.empty() ? "-" : vp::hex(f.payload).c_str(), f.optx, f.dmg);
     return s;
 }
@@ -42,6 +43,13 @@ static std::string run_case(const Case &c, std::string &msg, bool classify) {
     size_t block = frame_struct_size() + need + c.extra;
     Session S(c.serial, c.mem16, block, c.chunk_src, c.chunk_snk);
     be().reset(); be().salt = c.extra * 7 + 1;
+    // the second instance of a nested session: it has received a request and will answer it with ERANGE(0x5a5a5a5a) from inside S's sink driver
+    std::unique_ptr<Session> N; RPMaybeFrame nmf; memset(&nmf, 0, sizeof nmf);
+    if (c.nest) {
+        N.reset(new Session(c.serial, !c.mem16, 300, true, true));
+        N->feed(rp::on_wire(c.serial, rp::encode(rp::make_request(c.serial, false, !c.mem16, 0x7e57, 0x0badf00du, 3, {}))));
+        if (regp_recv(&N->p, &nmf) != 0 || !nmf.frame) { msg = "nested instance did not receive its request"; return "harness:nested-setup"; }
+    }
     size_t mixed = 0;
     for (size_t i = 0; i < c.frames.size(); i++) {
         const Spec &sp = c.frames[i];
@@ -76,7 +84,9 @@ static std::string run_case(const Case &c, std::string &msg, bool classify) {
         std::string tag = vp::fmt("frame %zu (%s): ", i, rp::show(fr).c_str());
         if (rr != 0 || mf.error.id != 0 || mf.frame == nullptr) { msg = tag + vp::fmt("regp_recv rc=%d error.id=%d", rr, mf.error.id); if (mf.frame) regp_free(&S.p, mf.frame); return "valid-frame-not-received"; }
         if (!S.snk.got.empty()) { msg = tag + "reception of a valid frame produced output"; regp_free(&S.p, mf.frame); return "recv:unexpected-output"; }
+        if (c.nest) S.snk.hook = [&]() { (void)regp_resp_erange(&N->p, nmf.frame, 0x5a5a5a5au); (void)N->take_output(); };
         int pr = regp_process(&S.p, &mf);
+        S.snk.hook = nullptr;
         (void)pr;   // return codes of regp_process are not part of the property
         Bytes out = S.take_output();
         size_t ncalls = be().log.size() - calls0;
@@ -115,6 +125,8 @@ static std::string run_case(const Case &c, std::string &msg, bool classify) {
             vp::cls(sp.kind == 0 ? (width_ok ? std::string("request-verdict-") + rp::code_name[sp.code] : "request-width-mismatch") : sp.kind == 1 ? "response-frame" : "meta-frame");
         }
     }
+    if (c.nest && nmf.frame) regp_free(&N->p, nmf.frame);
+    if (classify && c.nest) vp::cls("session-with-a-second-instance-answering-from-inside-the-sink-driver");
     if (classify && c.frames.size() >= 3) vp::cls("session>=3-frames");
     return "";
 }
@@ -127,6 +139,7 @@ static rc::Gen<Case> genCase() {
         Case c;
         c.serial = *rc::gen::arbitrary<bool>(); c.mem16 = *rc::gen::arbitrary<bool>(); c.chunk_src = *rc::gen::arbitrary<bool>(); c.chunk_snk = *rc::gen::arbitrary<bool>();
         c.extra = *rc::gen::weightedOneOf<uint32_t>({{4, rc::gen::just<uint32_t>(0)}, {2, vprc::uni<uint32_t>(0, 3)}, {4, vprc::uni<uint32_t>(0, 40)}, {1, rc::gen::element<uint32_t>(65300u, 65436u, 65500u, 65535u, 65536u, 70000u, 131000u, 131072u)}});   // the last group: allocator blocks beyond 64 KiB, sized so that the room for a read answer lies just across a multiple of 2^16
+        c.nest = *rc::gen::weightedElement<bool>({{4, false}, {1, true}});
         size_t nf = *vprc::uni<size_t>(1, 8);
         bool mem16 = c.mem16;
         c.frames = *rc::gen::container<std::vector<Spec>>(nf, rc::gen::exec([mem16]() {
@@ -165,7 +178,7 @@ static bool replay(const std::string &text) {
     Case c; bool have = false;
     for (auto &l : vp::lines(text)) {
         auto w = vp::split(l);
-        if (w.size() >= 6 && w[0] == "session") { c.serial = atoi(w[1].c_str()); c.mem16 = atoi(w[2].c_str()); c.chunk_src = atoi(w[3].c_str()); c.chunk_snk = atoi(w[4].c_str()); c.extra = (uint32_t)strtoul(w[5].c_str(), 0, 10); have = true; }
+        if (w.size() >= 6 && w[0] == "session") { c.serial = atoi(w[1].c_str()); c.mem16 = atoi(w[2].c_str()); c.chunk_src = atoi(w[3].c_str()); c.chunk_snk = atoi(w[4].c_str()); c.extra = (uint32_t)strtoul(w[5].c_str(), 0, 10); c.nest = w.size() >= 7 && atoi(w[6].c_str()); have = true; }
         else if (w.size() >= 11 && w[0] == "frame") c.frames.push_back({atoi(w[1].c_str()), (bool)atoi(w[2].c_str()), (bool)atoi(w[3].c_str()), (uint16_t)strtoul(w[4].c_str(), 0, 10), (uint32_t)strtoul(w[5].c_str(), 0, 10),
                                                                       (uint32_t)strtoul(w[6].c_str(), 0, 10), w[10] == "-" ? Bytes() : vp::unhex(w[10]), atoi(w[7].c_str()), (uint32_t)strtoul(w[8].c_str(), 0, 10), atoi(w[9].c_str()), w.size() >= 12 ? atoi(w[11].c_str()) : -1, w.size() >= 13 ? atoi(w[12].c_str()) : 0});
     }
